@@ -48,6 +48,9 @@ C["C10"] = dict(
 C["C07"] = dict(
     text="7 scenarios on a real pair: one stream shm+shm+close, shm+fallback+sticky-fallback+close, fallback+close, two concurrent streams with mixed transports, request/response, and callback-mode readers (data then close; two streams): keyed payloads (byte i of stream k is a function of (k,i)); every schedule with <= 2/1 (quick) / <= 3/2 (thorough) deviations; oracles: each reader receives only its own stream's bytes in flush order and is told the stream ended only after every byte flushed before the close was offered",
     note=NOTE_B + "; the callback-mode data-then-close defect D10 is a recorded known finding", technique=TECH_B, design="DESIGN.md section 4 C07")
+C["C09"] = dict(
+    text="10 histories on a real pair, every schedule with <= 2 (quick) / <= 3 (thorough) deviations: partial read then close; close racing with arriving data; flush after the peer closed; pinned and peeked data never released; socket fallback mixed with shared memory; queue-full retries with two streams on a 1-element queue; read buffer reused as write buffer in both directions; a response arriving after the client closed the stream; callback mode with partial consumption and peer close; Close inside OnData. Each execution is completed by closing every stream on both ends (including streams only implicitly accepted) and run to quiescence; oracle: free count == capacity in every class and GetMetrics().AllInUsedShareMemoryInBytes == 0",
+    note=NOTE_B, technique=TECH_B, design="DESIGN.md section 4 C09")
 NA = {}
 m = {
     "version": 1,
